@@ -40,3 +40,9 @@ impl<const N: usize> ArrEq for [u8; N] {
 pub assume_specification<T, P: FnOnce(&T) -> bool>[ Option::<T>::filter ](o: Option<T>, p: P) -> (r: Option<T>)
     ensures match o { None => r is None,
                       Some(v) => (r is None || r == Some(v)) && (r is Some ==> call_ensures(p, (&v,), true)) && (r is None ==> call_ensures(p, (&v,), false)) };
+
+// core::convert::AsRef (R7: same name, receiver and types; the result is a specification-level function of the argument)
+pub trait AsRef<T: ?Sized> {
+    spec fn as_ref_spec(&self) -> &T;
+    fn as_ref(&self) -> (r: &T) ensures r == self.as_ref_spec();
+}
